@@ -128,6 +128,48 @@ Qed.
 Lemma In_without x ids l : In x (without ids l) -> In x l.
 Proof. unfold without. intros H. apply filter_In in H. tauto. Qed.
 
+Lemma In_without_iff x ids l :
+  In x (without ids l) <-> In x l /\ existsb (N.eqb (sn_id x)) ids = false.
+Proof.
+  unfold without. rewrite filter_In. split; intros [H1 H2]; split; try exact H1.
+  - apply negb_true_iff. exact H2.
+  - apply negb_true_iff. exact H2.
+Qed.
+
+Lemma not_in_single x p : existsb (N.eqb x) [p] = false <-> x <> p.
+Proof. cbn [existsb]. rewrite orb_false_r. apply N.eqb_neq. Qed.
+
+Lemma max_snap_In l : forall b r, max_snap b l = Some r -> b = Some r \/ In r l.
+Proof.
+  induction l as [|y l IH]; intros b r H; cbn [max_snap] in H; [left; exact H|].
+  destruct b as [b0|].
+  - destruct (sn_id b0 <? sn_id y).
+    + destruct (IH _ _ H) as [E|E]; [inversion E; right; left; reflexivity|right; right; exact E].
+    + destruct (IH _ _ H) as [E|E]; [left; exact E|right; right; exact E].
+  - destruct (IH _ _ H) as [E|E]; [inversion E; right; left; reflexivity|right; right; exact E].
+Qed.
+
+(* one snapshot per id; the element of greatest id *)
+Definition uniq (l : list snapobs) : Prop := forall x y, In x l -> In y l -> sn_id x = sn_id y -> x = y.
+Definition top (l : list snapobs) (b : snapobs) : Prop := In b l /\ forall x, In x l -> sn_id x <= sn_id b.
+
+Lemma best_top l b : uniq l -> top l b -> max_snap None l = Some b.
+Proof.
+  intros Hu [Hb Hle]. destruct (max_snap None l) as [r|] eqn:E.
+  - destruct (max_snap_In _ _ _ E) as [E1|Hr]; [discriminate|].
+    destruct (max_snap_ge _ _ _ E) as [G _]. f_equal. apply Hu; try assumption.
+    specialize (G b Hb). specialize (Hle r Hr). lia.
+  - apply max_snap_none_nil in E. subst. destruct Hb.
+Qed.
+
+Lemma best_sub files pubs b :
+  uniq pubs -> (forall x, In x files -> In x pubs) -> top pubs b -> In b files -> max_snap None files = Some b.
+Proof.
+  intros Hu Hs [Hb Hle] Hf. apply best_top.
+  - intros x y Hx Hy. apply Hu; apply Hs; assumption.
+  - split; [exact Hf|]. intros x Hx. apply Hle. apply Hs. exact Hx.
+Qed.
+
 (* ---------- the simulation invariant ---------- *)
 Definition bnd (st : store) (x : N) : Prop :=
   match pend st with Some p => x < p_id p | None => x <= ckpt_id st end.
@@ -140,12 +182,8 @@ Definition PInv (p : pending) (mp : mpend) : Prop :=
   forallb (fun e => entry_cid e =? mp_id mp) (mp_got_ops mp) = true /\
   incl_b N.eqb (map entry_op (mp_got_ops mp)) (mp_ops mp) = true.
 
-Definition pub_files (pubs files : list snapobs) : Prop :=
-  match pubs with
-  | [] => files = []
-  | s :: rest => max_snap None files = Some s /\ forall r, In r rest -> sn_id r < sn_id s
-  end.
-
+(* storage vs the monitor's record: every file is the latest publication of its id, and the latest publication
+   of the greatest id ever published is still there (stale files of an abandoned timeline included) *)
 Definition Inv (w : world) (m : mon) : Prop :=
   let st := w_store w in
   match pend st, m_pend m with
@@ -154,49 +192,59 @@ Definition Inv (w : world) (m : mon) : Prop :=
   | _, _ => False
   end /\
   m_last m <= ckpt_id st /\
-  (forall s, In s (m_pub m) -> bnd st (sn_id s)) /\
-  (forall s, In s (w_files w) -> bnd st (sn_id s)) /\
+  (forall i, In i (m_cur m) -> bnd st i) /\
   (forall s, In s (completed st) -> bnd st (sn_id s)) /\
-  pub_files (m_pub m) (w_files w).
+  uniq (m_pub m) /\
+  (forall x, In x (w_files w) -> In x (m_pub m)) /\
+  (forall b, top (m_pub m) b -> In b (w_files w)) /\
+  w_sps w = m_sps m.
 
 Lemma Inv_init : Inv init mon_init.
 Proof.
-  unfold Inv, init, mon_init, new_store, bnd, pub_files. cbn.
-  repeat split; try lia; intros s [].
+  unfold Inv, init, mon_init, new_store, bnd, uniq, top. cbn.
+  repeat split; try lia; try (intros ? []); try (intros ? ? []); try (intros b [[] _]).
 Qed.
 
 (* a complete pending snapshot is published: no code, invariant re-established *)
-Lemma publish_ok w p mp lst pubs :
+Lemma publish_ok w p mp lst pubs cur sps :
   PInv p mp -> p_id p = ckpt_id (w_store w) -> is_complete p = true ->
   lst <= ckpt_id (w_store w) ->
-  (forall s, In s pubs -> sn_id s < p_id p) ->
-  (forall s, In s (w_files w) -> sn_id s < p_id p) ->
+  (forall i, In i cur -> i < p_id p) ->
   (forall s, In s (completed (w_store w)) -> sn_id s < p_id p) ->
-  pub_files pubs (w_files w) ->
-  snd (mon_pub (MkMon (Some mp) lst pubs) (Some (snd (publish w p)))) = [] /\
-  Inv (fst (publish w p)) (fst (mon_pub (MkMon (Some mp) lst pubs) (Some (snd (publish w p))))).
+  uniq pubs -> (forall x, In x (w_files w) -> In x pubs) -> (forall b, top pubs b -> In b (w_files w)) ->
+  w_sps w = sps ->
+  snd (mon_pub (MkMon (Some mp) lst pubs cur sps) (Some (snd (publish w p)))) = [] /\
+  Inv (fst (publish w p)) (fst (mon_pub (MkMon (Some mp) lst pubs cur sps) (Some (snd (publish w p))))).
 Proof.
-  intros HP Hid Hc Hl Hpubs Hfiles Hcomp Hpf.
+  intros HP Hid Hc Hl Hcur Hcomp Hu Hsub Htop Hsps.
   destruct HP as (P1 & P2 & P3 & P4 & P5 & P6 & P7 & P8).
   unfold publish.
   assert (Hsup : existsb (fun c => sn_id (snap_of p) <? sn_id c) (completed (w_store w)) = false).
   { apply existsb_false. intros c Hc'. specialize (Hcomp c Hc'). cbn [snap_of sn_id]. lia. }
-  rewrite Hsup. cbn [negb andb fst snd pb_snap].
+  rewrite Hsup. cbn [negb andb fst snd pb_snap pb_sp].
   set (s := snap_of p).
   assert (Hsid : sn_id s = p_id p) by reflexivity.
   set (cleanup := negb match completed (w_store w) with [] => true | _ :: _ => false end).
   set (files1 := s :: without [sn_id s] (w_files w)).
   set (files2 := if cleanup && negb (w_lose w) then without (ids_of (completed (w_store w))) files1 else files1).
-  assert (Hf2 : exists Y, files2 = s :: Y /\ forall y, In y Y -> In y (w_files w)).
-  { unfold files2. destruct (cleanup && negb (w_lose w)).
-    - unfold files1, without at 1. cbn [filter].
-      assert (E : existsb (N.eqb (sn_id s)) (ids_of (completed (w_store w))) = false).
-      { apply existsb_false. intros x Hx. unfold ids_of in Hx. apply in_map_iff in Hx.
-        destruct Hx as (c & Ec & Hc'). specialize (Hcomp c Hc'). apply N.eqb_neq. lia. }
-      rewrite E. cbn [negb]. eexists. split; [reflexivity|].
-      intros y Hy. apply filter_In in Hy. destruct Hy as [Hy _]. exact (In_without _ _ _ Hy).
-    - unfold files1. eexists. split; [reflexivity|]. intros y Hy. exact (In_without _ _ _ Hy). }
-  destruct Hf2 as (Y & EY & HY). rewrite EY.
+  assert (Hobs : forall x, existsb (N.eqb x) (ids_of (completed (w_store w))) = true -> x < p_id p).
+  { intros x Hx. apply existsb_exists in Hx. destruct Hx as (i & Hi & E). apply N.eqb_eq in E. subst i.
+    unfold ids_of in Hi. apply in_map_iff in Hi. destruct Hi as (c & Ec & Hc'). specialize (Hcomp c Hc'). lia. }
+  assert (Hf2in : forall x, In x files2 -> x = s \/ (In x (w_files w) /\ sn_id x <> p_id p)).
+  { intros x Hx. assert (Hx1 : In x files1).
+    { unfold files2 in Hx. destruct (cleanup && negb (w_lose w)); [exact (In_without _ _ _ Hx)|exact Hx]. }
+    destruct Hx1 as [Hx1|Hx1]; [left; symmetry; exact Hx1|right].
+    apply In_without_iff in Hx1. destruct Hx1 as [H1 H2]. split; [exact H1|]. apply not_in_single in H2. rewrite <- Hsid. exact H2. }
+  assert (Hf2keep : forall x, (x = s \/ (In x (w_files w) /\ p_id p < sn_id x)) -> In x files2).
+  { intros x Hx.
+    assert (Hx1 : In x files1).
+    { destruct Hx as [Hx|[Hx Hlt]]; [left; symmetry; exact Hx|right].
+      apply In_without_iff. split; [exact Hx|]. apply not_in_single. lia. }
+    unfold files2. destruct (cleanup && negb (w_lose w)); [|exact Hx1].
+    apply In_without_iff. split; [exact Hx1|].
+    destruct (existsb (N.eqb (sn_id x)) (ids_of (completed (w_store w)))) eqn:E; [|reflexivity].
+    specialize (Hobs _ E). destruct Hx as [Hx|[_ Hlt]]; [subst x; lia|lia]. }
+  clearbody files2. clear files1.
   split.
   - (* monitor: content and completeness *)
     unfold mon_pub. cbn [m_pend pb_snap snd].
@@ -212,15 +260,30 @@ Proof.
       - apply mem_In in Hx. specialize (P5 x). rewrite Hx in P5.
         apply mem_In. exact (all_set_flag _ _ _ Hs P5). }
     rewrite C1, C2. reflexivity.
-  - unfold mon_pub. cbn [m_pend m_last m_pub pb_snap fst snd].
-    unfold Inv, bnd. cbn [w_store w_files pend m_pend m_last m_pub completed ckpt_id].
+  - unfold mon_pub. cbn [m_pend m_last m_pub m_cur m_sps pb_snap pb_sp fst snd].
+    unfold Inv, bnd. cbn [w_store w_files w_sps pend m_pend m_last m_pub m_cur m_sps completed ckpt_id].
     split; [exact I|]. split; [exact Hl|].
-    split. { intros x [Hx|Hx]; [subst x; lia|]. specialize (Hpubs x Hx). lia. }
-    split. { intros x [Hx|Hx]; [subst x; lia|]. specialize (Hfiles x (HY x Hx)). lia. }
+    split. { intros i [Hi|Hi]; [subst i; lia|]. specialize (Hcur i Hi). lia. }
     split. { intros x [Hx|[]]. subst x. lia. }
-    unfold pub_files. split.
-    + cbn [max_snap]. apply max_snap_some. intros y Hy. specialize (Hfiles y (HY y Hy)). lia.
-    + intros r Hr. specialize (Hpubs r Hr). lia.
+    split.
+    { (* one publication per id *)
+      intros x y Hx Hy E. destruct Hx as [Hx|Hx]; destruct Hy as [Hy|Hy].
+      - congruence.
+      - subst x. apply In_without_iff in Hy. destruct Hy as [_ Hy]. apply not_in_single in Hy. congruence.
+      - subst y. apply In_without_iff in Hx. destruct Hx as [_ Hx]. apply not_in_single in Hx. congruence.
+      - apply Hu; [exact (In_without _ _ _ Hx)|exact (In_without _ _ _ Hy)|exact E]. }
+    split.
+    { intros x Hx. destruct (Hf2in x Hx) as [E|[H1 H2]]; [left; symmetry; exact E|right].
+      apply In_without_iff. split; [exact (Hsub x H1)|]. apply not_in_single. rewrite Hsid. exact H2. }
+    split.
+    { intros b [Hb Hle]. destruct Hb as [Hb|Hb]; [apply Hf2keep; left; symmetry; exact Hb|].
+      apply In_without_iff in Hb. destruct Hb as [Hb Hne]. apply not_in_single in Hne.
+      assert (Hlt : p_id p < sn_id b).
+      { specialize (Hle s (or_introl eq_refl)). rewrite Hsid in *. lia. }
+      apply Hf2keep. right. split; [|exact Hlt]. apply Htop. split; [exact Hb|].
+      intros x Hx. destruct (N.eqb_spec (sn_id x) (sn_id s)) as [E|E]; [rewrite E, Hsid; lia|].
+      apply Hle. right. apply In_without_iff. split; [exact Hx|]. apply not_in_single. exact E. }
+    rewrite Hsps. reflexivity.
 Qed.
 
 Definition step_good (w : world) (m : mon) (a : action) : Prop :=
@@ -236,60 +299,55 @@ Lemma create_ok w m ops srs sp :
   let st := w_store w in
   let id := ckpt_id st + 1 in
   snd (mon_create m id ops srs) = [] /\
-  Inv (MkWorld (MkStore (completed st) (Some (new_pending id ops srs sp)) id) (w_files w) (w_lose w)) (fst (mon_create m id ops srs)).
+  Inv (MkWorld (MkStore (completed st) (Some (new_pending id ops srs sp)) id) (w_files w) (w_lose w) (w_sps w)) (fst (mon_create m id ops srs)).
 Proof.
-  intros (I1 & I2 & I3 & I4 & I5 & I6) Hp st id.
-  unfold bnd in I3, I4, I5. rewrite Hp in *.
+  intros (I1 & I2 & I3 & I4 & I5 & I6 & I7 & I8) Hp st id.
+  unfold bnd in I3, I4. rewrite Hp in *.
   destruct (m_pend m) as [mp|] eqn:Emp; [contradiction|].
   unfold mon_create. rewrite Emp. cbn [fst snd app].
   assert (E14 : (id <=? m_last m) = false) by (unfold id, st; lia).
-  assert (E15 : existsb (fun s => id <=? sn_id s) (m_pub m) = false).
-  { apply existsb_false. intros s Hs. specialize (I3 s Hs). unfold id, st. lia. }
+  assert (E15 : existsb (fun i => id <=? i) (m_cur m) = false).
+  { apply existsb_false. intros i Hi. specialize (I3 i Hi). unfold id, st. lia. }
   rewrite E14, E15. split; [reflexivity|].
-  unfold Inv, bnd. cbn [w_store w_files pend m_pend m_last m_pub completed ckpt_id new_pending p_id].
+  unfold Inv, bnd. cbn [w_store w_files w_sps pend m_pend m_last m_pub m_cur m_sps completed ckpt_id new_pending p_id].
   split.
   { split; [|reflexivity]. unfold PInv. cbn [p_id p_ops p_srs p_entries p_splits mp_id mp_ops mp_srs mp_got_ops mp_got_srs map concat].
     repeat split; try reflexivity; intros k; unfold new_pending; cbn [p_ops p_srs]; rewrite flag_of_mk_flags; reflexivity. }
   split; [lia|].
-  split. { intros s Hs. specialize (I3 s Hs). unfold id, st. lia. }
+  split. { intros i Hi. specialize (I3 i Hi). unfold id, st. lia. }
   split. { intros s Hs. specialize (I4 s Hs). unfold id, st. lia. }
-  split. { intros s Hs. specialize (I5 s Hs). unfold id, st. lia. }
-  exact I6.
+  repeat split; assumption.
 Qed.
 
 (* an accepted or ignored ack, then the completeness test *)
-Lemma finish_ok w p mp lst pubs :
+Lemma finish_ok w p mp lst pubs cur sps :
   PInv p mp -> p_id p = ckpt_id (w_store w) -> lst <= ckpt_id (w_store w) ->
-  (forall s, In s pubs -> sn_id s < p_id p) ->
-  (forall s, In s (w_files w) -> sn_id s < p_id p) ->
+  (forall i, In i cur -> i < p_id p) ->
   (forall s, In s (completed (w_store w)) -> sn_id s < p_id p) ->
-  pub_files pubs (w_files w) ->
+  uniq pubs -> (forall x, In x (w_files w) -> In x pubs) -> (forall b, top pubs b -> In b (w_files w)) ->
+  w_sps w = sps ->
   exists pub, snd (finish_if_complete w p) = RAck false pub /\
-    snd (mon_pub (MkMon (Some mp) lst pubs) pub) = [] /\
-    Inv (fst (finish_if_complete w p)) (fst (mon_pub (MkMon (Some mp) lst pubs) pub)).
+    snd (mon_pub (MkMon (Some mp) lst pubs cur sps) pub) = [] /\
+    Inv (fst (finish_if_complete w p)) (fst (mon_pub (MkMon (Some mp) lst pubs cur sps) pub)).
 Proof.
-  intros HP Hid Hl Hpubs Hfiles Hcomp Hpf.
+  intros HP Hid Hl Hcur Hcomp Hu Hsub Htop Hsps.
   unfold finish_if_complete. destruct (is_complete p) eqn:Ec.
   - destruct (publish w p) as [w' pub] eqn:Epub. cbn [fst snd].
     exists (Some pub). split; [reflexivity|].
-    pose proof (publish_ok w p mp lst pubs HP Hid Ec Hl Hpubs Hfiles Hcomp Hpf) as H.
+    pose proof (publish_ok w p mp lst pubs cur sps HP Hid Ec Hl Hcur Hcomp Hu Hsub Htop Hsps) as H.
     rewrite Epub in H. cbn [fst snd] in H. exact H.
   - exists None. cbn [fst snd mon_pub]. split; [reflexivity|]. split; [reflexivity|].
-    unfold Inv, with_pending, bnd. cbn [w_store w_files pend completed ckpt_id m_pend m_last m_pub].
+    unfold Inv, with_pending, bnd. cbn [w_store w_files w_sps pend completed ckpt_id m_pend m_last m_pub m_cur m_sps].
     split; [split; [exact HP|exact Hid]|]. repeat split; assumption.
 Qed.
 
-Lemma mon_eta m mp : m_pend m = Some mp -> m = MkMon (Some mp) (m_last m) (m_pub m).
-Proof. destruct m as [a b c]. cbn. intros ->. reflexivity. Qed.
-
-Lemma Inv_same_store w m :
-  Inv w m -> Inv w m.
-Proof. tauto. Qed.
+Lemma mon_eta m mp : m_pend m = Some mp -> m = MkMon (Some mp) (m_last m) (m_pub m) (m_cur m) (m_sps m).
+Proof. destruct m as [a b c d e]. cbn. intros ->. reflexivity. Qed.
 
 Theorem step_preserves w m a : Inv w m -> step_good w m a.
 Proof.
   intros HI. unfold step_good.
-  destruct a as [ops srs|ops srs|cid op pl|cid sr sts| |b].
+  destruct a as [ops srs|ops srs|cid op pl|cid sr sts| |b|rid|].
   - (* CreateCheckpoint *)
     unfold step. destruct (pend (w_store w)) as [p|] eqn:Ep.
     + cbn [fst snd mon_step]. split; [reflexivity|exact HI].
@@ -299,36 +357,35 @@ Proof.
     + destruct (p_sp p) eqn:Esp.
       * cbn [fst snd mon_step]. split; [reflexivity|exact HI].
       * cbn [fst snd mon_step].
-        destruct HI as (I1 & I2 & I3 & I4 & I5 & I6). rewrite Ep in I1.
+        destruct HI as (I1 & I2 & I3 & I4 & I5 & I6 & I7 & I8). rewrite Ep in I1.
         destruct (m_pend m) as [mp|] eqn:Emp; [|contradiction].
         destruct I1 as [HP Hid]. destruct HP as (P1 & PR).
         rewrite <- P1, N.eqb_refl. split; [reflexivity|].
-        unfold Inv, with_pending, bnd in *. cbn [w_store w_files pend completed ckpt_id p_id].
+        unfold Inv, with_pending, bnd in *. cbn [w_store w_files w_sps pend completed ckpt_id p_id].
         rewrite Ep in *. rewrite Emp.
         split; [split; [split; [exact P1|exact PR]|exact Hid]|].
         repeat split; assumption.
     + cbn [fst snd mon_step]. exact (create_ok w m ops srs true HI Ep).
   - (* AddOperatorSnapshot *)
     unfold step. destruct (pend (w_store w)) as [p|] eqn:Ep.
-    + assert (HI0 := HI). destruct HI as (I1 & I2 & I3 & I4 & I5 & I6). rewrite Ep in I1.
+    + assert (HI0 := HI). destruct HI as (I1 & I2 & I3 & I4 & I5 & I6 & I7 & I8). rewrite Ep in I1.
       destruct (m_pend m) as [mp|] eqn:Emp; [|contradiction].
       destruct I1 as [HP Hid].
       assert (HP' := HP). destruct HP' as (P1 & P2 & P3 & P4 & P5 & P6 & P7 & P8).
-      assert (B3 : forall s, In s (m_pub m) -> sn_id s < p_id p) by (intros s Hs; exact (bnd_pending _ _ _ Ep (I3 s Hs))).
-      assert (B4 : forall s, In s (w_files w) -> sn_id s < p_id p) by (intros s Hs; exact (bnd_pending _ _ _ Ep (I4 s Hs))).
-      assert (B5 : forall s, In s (completed (w_store w)) -> sn_id s < p_id p) by (intros s Hs; exact (bnd_pending _ _ _ Ep (I5 s Hs))).
+      assert (B3 : forall i, In i (m_cur m) -> i < p_id p) by (intros i Hi; exact (bnd_pending _ _ _ Ep (I3 i Hi))).
+      assert (B4 : forall s, In s (completed (w_store w)) -> sn_id s < p_id p) by (intros s Hs; exact (bnd_pending _ _ _ Ep (I4 s Hs))).
       destruct (N.eqb_spec (p_id p) cid) as [Ecid|Ecid]; cbn [negb].
       * set (mp' := MkMPend (mp_id mp) (mp_ops mp) (mp_srs mp) (mp_got_ops mp ++ [(op, cid, pl)]) (mp_got_srs mp)).
         assert (Estep : forall e0 pub, mon_step m (AAckOp cid op pl, RAck e0 pub) =
                   mon_pub (if mem op (mp_ops mp) && negb (mem op (map entry_op (mp_got_ops mp)))
-                           then MkMon (Some mp') (m_last m) (m_pub m) else m) pub).
+                           then MkMon (Some mp') (m_last m) (m_pub m) (m_cur m) (m_sps m) else m) pub).
         { intros e0 pub. cbn [mon_step]. rewrite Emp.
           replace (mp_id mp =? cid) with true by (symmetry; apply N.eqb_eq; congruence).
           cbn [andb]. reflexivity. }
         unfold add_op. cbn [fst]. rewrite (P4 op).
         destruct (mem op (mp_ops mp)) eqn:Emem; [destruct (mem op (map entry_op (mp_got_ops mp))) eqn:Egot|].
         -- (* duplicate: ignored *)
-           destruct (finish_ok w p mp (m_last m) (m_pub m) HP Hid I2 B3 B4 B5 I6) as (pub & Er & Hc & Hi).
+           destruct (finish_ok w p mp (m_last m) (m_pub m) (m_cur m) (m_sps m) HP Hid I2 B3 B4 I5 I6 I7 I8) as (pub & Er & Hc & Hi).
            rewrite Er, Estep. cbn [negb andb]. rewrite (mon_eta m mp Emp) at 1 2. split; assumption.
         -- (* counted *)
            set (e := (op, cid, pl)).
@@ -358,10 +415,10 @@ Proof.
                - exact (proj1 (incl_b_N _ _) P8 x Hx).
                - cbn in Hx. destruct Hx as [Hx|[]]. subst x. apply mem_In. exact Emem. } }
            assert (Hid' : p_id p' = ckpt_id (w_store w)) by exact Hid.
-           destruct (finish_ok w p' mp' (m_last m) (m_pub m) HP2 Hid' I2 B3 B4 B5 I6) as (pub & Er & Hc & Hi).
+           destruct (finish_ok w p' mp' (m_last m) (m_pub m) (m_cur m) (m_sps m) HP2 Hid' I2 B3 B4 I5 I6 I7 I8) as (pub & Er & Hc & Hi).
            match goal with |- context [finish_if_complete w ?x] => change x with p' end. rewrite Er, Estep. cbn [negb andb]. split; assumption.
         -- (* unknown operator: ignored *)
-           destruct (finish_ok w p mp (m_last m) (m_pub m) HP Hid I2 B3 B4 B5 I6) as (pub & Er & Hc & Hi).
+           destruct (finish_ok w p mp (m_last m) (m_pub m) (m_cur m) (m_sps m) HP Hid I2 B3 B4 I5 I6 I7 I8) as (pub & Er & Hc & Hi).
            rewrite Er, Estep. cbn [negb andb]. rewrite (mon_eta m mp Emp) at 1 2. split; assumption.
       * (* wrong id *)
         cbn [fst snd mon_step]. rewrite Emp.
@@ -374,18 +431,17 @@ Proof.
       cbn [mon_pub fst snd]. split; [reflexivity|exact HI0].
   - (* AddSourceSnapshot *)
     unfold step. destruct (pend (w_store w)) as [p|] eqn:Ep.
-    + assert (HI0 := HI). destruct HI as (I1 & I2 & I3 & I4 & I5 & I6). rewrite Ep in I1.
+    + assert (HI0 := HI). destruct HI as (I1 & I2 & I3 & I4 & I5 & I6 & I7 & I8). rewrite Ep in I1.
       destruct (m_pend m) as [mp|] eqn:Emp; [|contradiction].
       destruct I1 as [HP Hid].
       assert (HP' := HP). destruct HP' as (P1 & P2 & P3 & P4 & P5 & P6 & P7 & P8).
-      assert (B3 : forall s, In s (m_pub m) -> sn_id s < p_id p) by (intros s Hs; exact (bnd_pending _ _ _ Ep (I3 s Hs))).
-      assert (B4 : forall s, In s (w_files w) -> sn_id s < p_id p) by (intros s Hs; exact (bnd_pending _ _ _ Ep (I4 s Hs))).
-      assert (B5 : forall s, In s (completed (w_store w)) -> sn_id s < p_id p) by (intros s Hs; exact (bnd_pending _ _ _ Ep (I5 s Hs))).
+      assert (B3 : forall i, In i (m_cur m) -> i < p_id p) by (intros i Hi; exact (bnd_pending _ _ _ Ep (I3 i Hi))).
+      assert (B4 : forall s, In s (completed (w_store w)) -> sn_id s < p_id p) by (intros s Hs; exact (bnd_pending _ _ _ Ep (I4 s Hs))).
       destruct (N.eqb_spec (p_id p) cid) as [Ecid|Ecid]; cbn [negb].
       * set (mp' := MkMPend (mp_id mp) (mp_ops mp) (mp_srs mp) (mp_got_ops mp) (mp_got_srs mp ++ [(sr, sts)])).
         assert (Estep : forall e0 pub, mon_step m (AAckSr cid sr sts, RAck e0 pub) =
                   mon_pub (if negb e0 && mem sr (mp_srs mp) && negb (mem sr (map fst (mp_got_srs mp)))
-                           then MkMon (Some mp') (m_last m) (m_pub m) else m) pub).
+                           then MkMon (Some mp') (m_last m) (m_pub m) (m_cur m) (m_sps m) else m) pub).
         { intros e0 pub. cbn [mon_step]. rewrite Emp.
           replace (mp_id mp =? cid) with true by (symmetry; apply N.eqb_eq; congruence).
           rewrite andb_true_r. reflexivity. }
@@ -407,7 +463,7 @@ Proof.
                - destruct (mem k (mp_srs mp)); [|reflexivity]. rewrite orb_false_r. reflexivity. }
              repeat split; assumption. }
            assert (Hid' : p_id p' = ckpt_id (w_store w)) by exact Hid.
-           destruct (finish_ok w p' mp' (m_last m) (m_pub m) HP2 Hid' I2 B3 B4 B5 I6) as (pub & Er & Hc & Hi).
+           destruct (finish_ok w p' mp' (m_last m) (m_pub m) (m_cur m) (m_sps m) HP2 Hid' I2 B3 B4 I5 I6 I7 I8) as (pub & Er & Hc & Hi).
            match goal with |- context [finish_if_complete w ?x] => change x with p' end. rewrite Er, Estep. cbn [negb andb]. split; assumption.
         -- (* unknown source runner: refused *)
            cbn [fst snd]. rewrite Estep. cbn [negb andb mon_pub fst snd]. split; [reflexivity|exact HI0].
@@ -420,25 +476,57 @@ Proof.
       cbn [mon_pub fst snd]. split; [reflexivity|exact HI0].
   - (* Restart *)
     unfold step. cbn [fst snd mon_step].
-    destruct HI as (I1 & I2 & I3 & I4 & I5 & I6).
-    unfold pub_files in I6. unfold load_store.
-    destruct (m_pub m) as [|s rest] eqn:Epub.
-    + rewrite I6. cbn [max_snap new_store completed hd_error]. split; [reflexivity|].
-      unfold Inv, bnd, pub_files. cbn [w_store w_files pend completed ckpt_id m_pend m_last m_pub].
-      repeat split; try lia; try (intros x []).
-    + destruct I6 as [Hmax Hrest]. rewrite Hmax. cbn [completed hd_error].
-      assert (Hm : max_snap None (s :: rest) = Some s).
-      { cbn [max_snap]. apply max_snap_some. intros y Hy. specialize (Hrest y Hy). lia. }
-      rewrite Hm, snap_eqb_refl. split; [reflexivity|].
-      unfold Inv, bnd, pub_files. cbn [w_store w_files pend completed ckpt_id m_pend m_last m_pub].
-      destruct (max_snap_ge _ _ _ Hmax) as [G1 _].
+    destruct HI as (I1 & I2 & I3 & I4 & I5 & I6 & I7 & I8).
+    unfold load_store.
+    destruct (max_snap None (m_pub m)) as [b|] eqn:Eb.
+    + assert (Htop : top (m_pub m) b).
+      { destruct (max_snap_In _ _ _ Eb) as [E|Hin]; [discriminate|].
+        split; [exact Hin|exact (proj1 (max_snap_ge _ _ _ Eb))]. }
+      assert (Hf : max_snap None (w_files w) = Some b) by (apply (best_sub _ (m_pub m)); auto).
+      rewrite Hf. cbn [completed hd_error]. rewrite snap_eqb_refl. split; [reflexivity|].
+      unfold Inv, bnd. cbn [w_store w_files w_sps pend completed ckpt_id m_pend m_last m_pub m_cur m_sps].
       split; [exact I|]. split; [lia|].
-      split. { intros x [Hx|Hx]; [subst; lia|]. specialize (Hrest x Hx). lia. }
-      split. { exact G1. }
+      split. { intros i Hi. unfold ids_of in Hi. apply in_map_iff in Hi. destruct Hi as (x & Ex & Hx). subst i. exact (proj2 Htop x Hx). }
       split. { intros x [Hx|[]]. subst. lia. }
-      split; assumption.
+      repeat split; assumption.
+    + assert (Hnil : m_pub m = []) by (apply max_snap_none_nil; exact Eb).
+      assert (Hfn : w_files w = []).
+      { destruct (w_files w) as [|f l] eqn:Ef; [reflexivity|]. specialize (I6 f (or_introl eq_refl)). rewrite Hnil in I6. destruct I6. }
+      rewrite Hfn. cbn [max_snap new_store completed hd_error]. split; [reflexivity|].
+      unfold Inv, bnd. cbn [w_store w_files w_sps pend completed ckpt_id m_pend m_last m_pub m_cur m_sps].
+      rewrite Hnil. cbn [ids_of map].
+      split; [exact I|]. split; [lia|]. split; [intros ? []|]. split; [intros ? []|].
+      rewrite Hnil in *. rewrite Hfn in *. repeat split; assumption.
   - (* fault injection: Remove calls get lost from now on *)
     unfold step. cbn [fst snd mon_step]. split; [reflexivity|exact HI].
+  - (* start from the savepoint of id [rid] *)
+    unfold step. destruct HI as (I1 & I2 & I3 & I4 & I5 & I6 & I7 & I8). rewrite I8.
+    destruct (find_snap rid (m_sps m)) as [a|] eqn:Ea.
+    + cbn [fst snd mon_step]. rewrite Ea, snap_eqb_refl. split; [reflexivity|].
+      assert (Eid : sn_id a = rid).
+      { clear - Ea. induction (m_sps m) as [|x l IH]; cbn [find_snap] in Ea; [discriminate|].
+        destruct (N.eqb_spec (sn_id x) rid) as [E|E]; [injection Ea as <-; exact E|exact (IH Ea)]. }
+      unfold Inv, bnd. cbn [w_store w_files w_sps pend completed ckpt_id m_pend m_last m_pub m_cur m_sps].
+      split; [exact I|]. split; [lia|].
+      split. { intros i [Hi|[]]. subst i. lia. }
+      split. { intros x [Hx|[]]. subst. lia. }
+      repeat split; assumption.
+    + cbn [fst snd mon_step]. rewrite Ea. split; [reflexivity|].
+      unfold Inv, bnd, new_store. cbn [w_store w_files w_sps pend completed ckpt_id m_pend m_last m_pub m_cur m_sps].
+      split; [exact I|]. split; [lia|].
+      split; [intros ? []|]. split; [intros ? []|]. repeat split; assumption.
+  - (* AbortPendingCheckpoint *)
+    unfold step. cbn [fst snd mon_step].
+    destruct HI as (I1 & I2 & I3 & I4 & I5 & I6 & I7 & I8).
+    split; [reflexivity|].
+    unfold Inv, with_pending, bnd in *. cbn [w_store w_files w_sps pend completed ckpt_id m_pend m_last m_pub m_cur m_sps].
+    split; [exact I|]. split; [exact I2|].
+    destruct (pend (w_store w)) as [p|] eqn:Ep.
+    + destruct (m_pend m) as [mp|]; [|contradiction]. destruct I1 as [_ Hid].
+      split. { intros i Hi. specialize (I3 i Hi). lia. }
+      split. { intros x Hx. specialize (I4 x Hx). lia. }
+      repeat split; assumption.
+    + repeat split; assumption.
 Qed.
 
 Theorem run_accepted : forall acts w m, Inv w m -> mon_run m (combine acts (run repaired w acts)) = [].
